@@ -59,6 +59,29 @@ where
         trace_galois_elements(self.log_n(), self.cyclotomic_order())
     }
 
+    /// Scratch actually used by [`glwe_trace_assign_default`](Self::glwe_trace_assign_default) on `res_infos`:
+    /// mirrors its carves (optional copy over the key radix, then shift / automorphism per level).
+    fn glwe_trace_assign_tmp_bytes_default<R, K>(&self, res_infos: &R, key_infos: &K) -> usize
+    where
+        R: GLWEInfos,
+        K: GGLWEInfos,
+    {
+        let conv_infos: GLWELayout = GLWELayout {
+            n: res_infos.n(),
+            base2k: key_infos.base2k(),
+            k: res_infos.max_k(),
+            rank: res_infos.rank(),
+        };
+        let lvl_loop: usize =
+            self.glwe_shift_tmp_bytes()
+                .max(self.glwe_automorphism_tmp_bytes(&conv_infos, &conv_infos, key_infos));
+        if res_infos.base2k() != key_infos.base2k() {
+            GLWE::<Vec<u8>>::bytes_of_from_infos(&conv_infos) + self.glwe_normalize_tmp_bytes().max(lvl_loop)
+        } else {
+            lvl_loop
+        }
+    }
+
     fn glwe_trace_tmp_bytes_default<R, A, K>(&self, res_infos: &R, a_infos: &A, key_infos: &K) -> usize
     where
         R: GLWEInfos,
@@ -70,22 +93,38 @@ where
         assert_eq!(self.n() as u32, key_infos.n());
 
         let lvl_0: usize = self.glwe_automorphism_tmp_bytes(res_infos, a_infos, key_infos);
-        if a_infos.base2k() != key_infos.base2k() {
+        let legacy: usize = if a_infos.base2k() != key_infos.base2k() {
             let lvl_1: usize = VecZnx::bytes_of(
                 self.n(),
                 (key_infos.rank_out() + 1).into(),
                 res_infos.max_k().min(a_infos.max_k()).div_ceil(key_infos.base2k()) as usize,
             ) + self.vec_znx_normalize_tmp_bytes();
-            return lvl_0 + lvl_1;
-        }
-
-        let lvl_1: usize = if res_infos.max_k() > a_infos.max_k() {
-            GLWE::<Vec<u8>>::bytes_of_from_infos(res_infos)
+            lvl_0 + lvl_1
         } else {
-            GLWE::<Vec<u8>>::bytes_of_from_infos(a_infos)
+            let lvl_1: usize = if res_infos.max_k() > a_infos.max_k() {
+                GLWE::<Vec<u8>>::bytes_of_from_infos(res_infos)
+            } else {
+                GLWE::<Vec<u8>>::bytes_of_from_infos(a_infos)
+            };
+            lvl_0 + lvl_1
         };
 
-        lvl_0 + lvl_1
+        // glwe_trace works on a copy over the key radix at the larger of the two precisions and runs
+        // the in-place trace on it; the in-place variant alone needs `glwe_trace_assign_tmp_bytes`.
+        let tmp_infos: GLWELayout = GLWELayout {
+            n: res_infos.n(),
+            base2k: key_infos.base2k(),
+            k: a_infos.max_k().max(res_infos.max_k()),
+            rank: res_infos.rank(),
+        };
+        let with_tmp: usize = GLWE::<Vec<u8>>::bytes_of_from_infos(&tmp_infos)
+            + self
+                .glwe_normalize_tmp_bytes()
+                .max(self.glwe_trace_assign_tmp_bytes_default(&tmp_infos, key_infos));
+
+        legacy
+            .max(with_tmp)
+            .max(self.glwe_trace_assign_tmp_bytes_default(res_infos, key_infos))
     }
 
     fn glwe_trace_default<R, A, K, H>(&self, res: &mut R, skip: usize, a: &A, keys: &H, scratch: &mut Scratch<BE>)
@@ -144,10 +183,10 @@ where
         assert_eq!(ksk_infos.rank_in(), res.rank());
         assert_eq!(ksk_infos.rank_out(), res.rank());
         assert!(
-            scratch.available() >= self.glwe_trace_tmp_bytes_default(res, res, ksk_infos),
-            "scratch.available(): {} < GLWETrace::glwe_trace_tmp_bytes: {}",
+            scratch.available() >= self.glwe_trace_assign_tmp_bytes_default(res, ksk_infos),
+            "scratch.available(): {} < GLWETrace::glwe_trace_assign_tmp_bytes: {}",
             scratch.available(),
-            self.glwe_trace_tmp_bytes_default(res, res, ksk_infos)
+            self.glwe_trace_assign_tmp_bytes_default(res, ksk_infos)
         );
 
         if res.base2k() != ksk_infos.base2k() {
